@@ -2,227 +2,12 @@
 `operator/multi/qft.rs`: qft, qft_swapped.
 (split out of GenRegs2.lean so that an equality that no longer holds blocks only the properties that rely on it)
 -/
-import Qvnt.Lemmas.GenCtors
-
-set_option linter.unusedSectionVars false
-
-namespace Qvnt.Gen2
-open Qvnt Qvnt.Gen
-
-variable {R : Type}
-
-/-! ### `multi::qft` (`operator/multi/qft.rs`) -/
-section qft
-variable [CommRing R] [Consts R] [Div R] [Trig R] [Rs.AngleConsts R]
-
-/-- the half-angle phases of `PI * 0.5^j`, as the translated constructor computes them -/
-def genPhase (j : Nat) : Cx R := halfPhaseDiv ((Rs.AngleConsts.pi : R) * Rs.powi Consts.half j)
-
-theorem single_c_eq' (g : SingleOp R) (c : Nat) : single_c g c = g.c c := by
-  unfold single_c SingleOp.c single_act_on SingleOp.actOn
-  by_cases h : (g.act ||| g.ctrl) &&& c = 0 <;> simp [h]
-
-theorem foldlM_append {α β : Type} (F : α → Option (List β)) (l : List α) (init : List β) :
-    List.foldlM (fun res i => Option.bind (F i) (fun x => some (res ++ x))) init l =
-      (l.mapM F).map (fun xs => init ++ xs.flatten) := by
-  induction l generalizing init with
-  | nil => simp
-  | cons a l ih =>
-    simp only [List.foldlM_cons, List.mapM_cons]
-    cases F a with
-    | none => simp
-    | some x =>
-      simp only [Option.bind_some, Option.bind_eq_bind, ih]
-      cases l.mapM F <;> simp
-
-theorem vec_eq (a : Nat) :
-    List.foldl (fun (vec : List Nat) idx => if (shlW 64 1 idx &&& a != 0) then vec ++ [shlW 64 1 idx] else vec) [] (Rs.range 0 64) =
-      Op.qftBits a := by
-  unfold Op.qftBits Rs.range W
-  have key : ∀ (l : List Nat) (acc : List Nat), (∀ i ∈ l, i < 64) →
-      List.foldl (fun (vec : List Nat) idx => if (shlW 64 1 idx &&& a != 0) then vec ++ [shlW 64 1 idx] else vec) acc l =
-        acc ++ l.filterMap (fun i => if (2 ^ i) &&& a != 0 then some (2 ^ i) else none) := by
-    intro l
-    induction l with
-    | nil => intro acc _; simp
-    | cons x xs ih =>
-      intro acc hx
-      have hx64 : x < 64 := hx x (by simp)
-      have hs : shlW 64 1 x = 2 ^ x := shl_one x hx64
-      simp only [List.foldl_cons, List.filterMap_cons, hs]
-      rw [ih _ (fun i hi => hx i (by simp [hi]))]
-      by_cases hb : (2 ^ x &&& a != 0) = true <;> simp [hb]
-  have := key (List.range' 0 (64 - 0)) [] (by intro i hi; simp at hi; omega)
-  simpa [List.range_eq_range'] using this
-
-theorem qft_qft_eq (a : Nat) : qft_qft (R := R) a = Op.qft genPhase a := by
-  unfold qft_qft Op.qft
-  cases hc : popcount a with
-  | zero => simp
-  | succ k =>
-    cases k with
-    | zero => simp [h_h_eq]
-    | succ k =>
-      simp only [beq_iff_eq, Nat.succ_ne_zero, ↓reduceIte, Nat.add_eq_right]
-      have hv := vec_eq a
-      -- the bit list
-      have hvec : (List.foldl (fun (st2 : List Nat) a3 =>
-          (if (shlW 64 1 a3 &&& a != 0) = true then st2 ++ [shlW 64 1 a3] else st2)) [] (Rs.range 0 64)) = Op.qftBits a := hv
-      simp only [hvec]
-      generalize Op.qftBits a = vec
-      -- one stage, as a function of i
-      have hstage : ∀ i : Nat,
-          (Option.bind (h_h (R := R) (vec.getD i 0)) fun u19 =>
-            Option.bind (List.mapM (fun j =>
-              Option.bind (Option.bind (rotate_rz (vec.getD (i + j) 0) ((Rs.AngleConsts.pi : R) * Rs.powi Consts.half j))
-                  fun op => single_c op (vec.getD i 0)) fun u25 =>
-                Option.bind (rotate_rz (vec.getD i 0) (Consts.half * ((Rs.AngleConsts.pi : R) * Rs.powi Consts.half j))) fun u26 =>
-                  some [u25, u26]) (Rs.range 1 (k + 1 + 1 - i))) fun u27 => some (u19 ++ List.flatten u27)) =
-          (do
-            let hi ← Op.h (R := R) (vec.getD i 0)
-            let rots ← (List.range (k + 1 + 1 - i - 1)).mapM (fun k' =>
-              match SingleOp.checked (Atom.rz (vec.getD (i + (k' + 1)) 0) (genPhase (R := R) (k' + 1))),
-                    SingleOp.checked (Atom.rz (vec.getD i 0) (genPhase (R := R) (k' + 1 + 1))) with
-              | some g, some g' => (g.c (vec.getD i 0)).map (fun cg => [cg, g'])
-              | _, _ => none)
-            pure (hi ++ rots.flatten)) := by
-        intro i
-        rw [h_h_eq]
-        have hr : Rs.range 1 (k + 1 + 1 - i) = (List.range (k + 1 + 1 - i - 1)).map (· + 1) := by
-          unfold Rs.range
-          apply List.ext_getElem
-          · simp
-          · intro n h1 h2
-            simp [Nat.add_comm]
-        rw [hr, List.mapM_map]
-        have hf : ∀ k' : Nat,
-            (Option.bind (Option.bind (rotate_rz (vec.getD (i + (k' + 1)) 0) ((Rs.AngleConsts.pi : R) * Rs.powi Consts.half (k' + 1)))
-                fun op => single_c op (vec.getD i 0)) fun u25 =>
-              Option.bind (rotate_rz (vec.getD i 0) (Consts.half * ((Rs.AngleConsts.pi : R) * Rs.powi Consts.half (k' + 1)))) fun u26 =>
-                some [u25, u26]) =
-            (match SingleOp.checked (Atom.rz (vec.getD (i + (k' + 1)) 0) (genPhase (R := R) (k' + 1))),
-                  SingleOp.checked (Atom.rz (vec.getD i 0) (genPhase (R := R) (k' + 1 + 1))) with
-              | some g, some g' => (g.c (vec.getD i 0)).map (fun cg => [cg, g'])
-              | _, _ => none) := by
-          intro k'
-          have hph : (Consts.half : R) * ((Rs.AngleConsts.pi : R) * Rs.powi Consts.half (k' + 1)) =
-              (Rs.AngleConsts.pi : R) * Rs.powi Consts.half (k' + 1 + 1) := by
-            simp only [Rs.powi]; ring
-          rw [rotate_rz_eq, rotate_rz_eq, hph]
-          simp only [genPhase]
-          generalize SingleOp.checked (Atom.rz (vec.getD (i + (k' + 1)) 0)
-              (halfPhaseDiv ((Rs.AngleConsts.pi : R) * Rs.powi Consts.half (k' + 1)))) = o1
-          generalize SingleOp.checked (Atom.rz (vec.getD i 0)
-              (halfPhaseDiv ((Rs.AngleConsts.pi : R) * Rs.powi Consts.half (k' + 1 + 1)))) = o2
-          cases o1 with
-          | none => cases o2 <;> rfl
-          | some g =>
-            cases o2 with
-            | none => simp only [Option.bind_some]; rw [single_c_eq']; cases g.c (vec.getD i 0) <;> rfl
-            | some g' => simp only [Option.bind_some]; rw [single_c_eq']; cases g.c (vec.getD i 0) <;> rfl
-        simp only [Function.comp_def, hf]
-        cases Op.h (R := R) (vec.getD i 0) <;> simp
-      -- assemble
-      have hloop := foldlM_append (fun i =>
-          (Option.bind (h_h (R := R) (vec.getD i 0)) fun u19 =>
-            Option.bind (List.mapM (fun j =>
-              Option.bind (Option.bind (rotate_rz (vec.getD (i + j) 0) ((Rs.AngleConsts.pi : R) * Rs.powi Consts.half j))
-                  fun op => single_c op (vec.getD i 0)) fun u25 =>
-                Option.bind (rotate_rz (vec.getD i 0) (Consts.half * ((Rs.AngleConsts.pi : R) * Rs.powi Consts.half j))) fun u26 =>
-                  some [u25, u26]) (Rs.range 1 (k + 1 + 1 - i))) fun u27 => some (u19 ++ List.flatten u27)))
-        (Rs.range 0 (k + 1 + 1 - 1)) []
-      have hbody : (fun (st17 : List (SingleOp R)) a18 =>
-            (h_h (R := R) (vec.getD a18 0)).bind fun a =>
-              (List.mapM (fun a20 =>
-                  ((rotate_rz (vec.getD (a18 + a20) 0) ((Rs.AngleConsts.pi : R) * Rs.powi Consts.half a20)).bind fun a =>
-                      single_c a (vec.getD a18 0)).bind fun a =>
-                    (rotate_rz (vec.getD a18 0) (Consts.half * ((Rs.AngleConsts.pi : R) * Rs.powi Consts.half a20))).bind
-                      fun a_1 => some [a, a_1]) (Rs.range 1 (k + 1 + 1 - a18))).bind
-                fun a_1 => some (st17 ++ a ++ a_1.flatten)) =
-          (fun res i =>
-            Option.bind ((Option.bind (h_h (R := R) (vec.getD i 0)) fun u19 =>
-              Option.bind (List.mapM (fun j =>
-                Option.bind (Option.bind (rotate_rz (vec.getD (i + j) 0) ((Rs.AngleConsts.pi : R) * Rs.powi Consts.half j))
-                    fun op => single_c op (vec.getD i 0)) fun u25 =>
-                  Option.bind (rotate_rz (vec.getD i 0) (Consts.half * ((Rs.AngleConsts.pi : R) * Rs.powi Consts.half j))) fun u26 =>
-                    some [u25, u26]) (Rs.range 1 (k + 1 + 1 - i))) fun u27 => some (u19 ++ List.flatten u27))) (fun x => some (res ++ x))) := by
-        funext res i
-        cases h_h (R := R) (vec.getD i 0) with
-        | none => rfl
-        | some u =>
-          simp only [Option.bind_some]
-          cases List.mapM (fun a20 =>
-                  ((rotate_rz (vec.getD (i + a20) 0) ((Rs.AngleConsts.pi : R) * Rs.powi Consts.half a20)).bind fun a =>
-                      single_c a (vec.getD i 0)).bind fun a =>
-                    (rotate_rz (vec.getD i 0) (Consts.half * ((Rs.AngleConsts.pi : R) * Rs.powi Consts.half a20))).bind
-                      fun a_1 => some [a, a_1]) (Rs.range 1 (k + 1 + 1 - i)) with
-          | none => rfl
-          | some v => simp [List.append_assoc]
-      rw [hbody, hloop]
-      have hr0 : Rs.range 0 (k + 1 + 1 - 1) = List.range (k + 1 + 1 - 1) := by
-        simp [Rs.range, List.range_eq_range']
-      rw [hr0]
-      simp only [hstage]
-      simp only [h_h_eq]
-      cases List.mapM (fun i => (do
-            let hi ← Op.h (R := R) (vec.getD i 0)
-            let rots ← (List.range (k + 1 + 1 - i - 1)).mapM (fun k' =>
-              match SingleOp.checked (Atom.rz (vec.getD (i + (k' + 1)) 0) (genPhase (R := R) (k' + 1))),
-                    SingleOp.checked (Atom.rz (vec.getD i 0) (genPhase (R := R) (k' + 1 + 1))) with
-              | some g, some g' => (g.c (vec.getD i 0)).map (fun cg => [cg, g'])
-              | _, _ => none)
-            pure (hi ++ rots.flatten))) (List.range (k + 1 + 1 - 1)) with
-      | none => rfl
-      | some st =>
-        simp only [Option.map_some, List.nil_append, Option.bind_some, Option.bind_eq_bind]
-        cases Op.h (R := R) (vec.getD (k + 1 + 1 - 1) 0) <;> rfl
-
-theorem swapped_loop_eq (a fuel pos : Nat) (acc : List Nat) (hp : pos < 2 ^ 64) :
-    (qft_qft_swapped_loop1 a fuel (acc, pos)).map (fun st => st.1) = Op.maskBitsLoop a fuel pos acc := by
-  induction fuel generalizing pos acc with
-  | zero => simp [qft_qft_swapped_loop1, Op.maskBitsLoop]
-  | succ n ih =>
-    have hs : shl1 pos < 2 ^ 64 := by unfold shl1 W; exact Nat.mod_lt _ (by decide)
-    unfold qft_qft_swapped_loop1 Op.maskBitsLoop
-    by_cases hc : (pos != 0 && decide (pos ≤ a)) = true
-    · by_cases hb : (pos &&& a != 0) = true
-      · simp [hc, hb, shl_pos pos hp, ← ih _ _ hs]
-      · simp [hc, hb, shl_pos pos hp, ← ih _ _ hs]
-    · simp [hc]
-
-theorem qft_qft_swapped_eq (a : Nat) : qft_qft_swapped (R := R) a = Op.qftSwapped genPhase a := by
-  unfold qft_qft_swapped Op.qftSwapped
-  rw [← swapped_loop_eq a (W + 2) 1 [] (by decide)]
-  dsimp only
-  generalize qft_qft_swapped_loop1 a (W + 2) ([], 1) = o
-  cases o with
-  | none => rfl
-  | some st =>
-    obtain ⟨vm, idx⟩ := st
-    simp only [Option.bind_some, Option.map_some, Option.bind_eq_bind]
-    have hbody : (fun (st6 : List (SingleOp R)) a7 =>
-          Option.bind (swapmod_swap (R := R) (vm.getD a7 0 ||| vm.getD (vm.length - a7 - 1) 0)) fun u8 =>
-            some (st6 ++ MultiOp.ofSingle u8)) =
-        (fun res i => Option.bind ((SingleOp.checked (Atom.swap (R := R) (vm.getD i 0 ||| vm.getD (vm.length - i - 1) 0))).map
-          MultiOp.ofSingle) (fun x => some (res ++ x))) := by
-      funext res i
-      rw [swapmod_swap_eq]
-      cases SingleOp.checked (Atom.swap (R := R) (vm.getD i 0 ||| vm.getD (vm.length - i - 1) 0)) <;> rfl
-    rw [hbody, foldlM_append]
-    have hr0 : Rs.range 0 (vm.length >>> 1) = List.range (vm.length / 2) := by
-      simp [Rs.range, List.range_eq_range', Nat.shiftRight_eq_div_pow]
-    rw [hr0, qft_qft_eq]
-    cases List.mapM (fun i => (SingleOp.checked (Atom.swap (R := R) (vm.getD i 0 ||| vm.getD (vm.length - i - 1) 0))).map
-        MultiOp.ofSingle) (List.range (vm.length / 2)) with
-    | none => rfl
-    | some sw =>
-      simp only [Option.map_some, List.nil_append, Option.bind_some]
-      cases Op.qft (R := R) genPhase a <;> rfl
-
-theorem op_qft_eq (a : Nat) : op_qft (R := R) a = Op.qft genPhase a := by
-  simp [op_qft, qft_qft_eq]
-theorem op_qft_swapped_eq (a : Nat) : op_qft_swapped (R := R) a = Op.qftSwapped genPhase a := by
-  simp [op_qft_swapped, qft_qft_swapped_eq]
-
-end qft
-end Qvnt.Gen2
+import Qvnt.Lemmas.GenQft.genPhase
+import Qvnt.Lemmas.GenQft.single_c_eq_p
+import Qvnt.Lemmas.GenQft.foldlM_append
+import Qvnt.Lemmas.GenQft.vec_eq
+import Qvnt.Lemmas.GenQft.qft_qft_eq
+import Qvnt.Lemmas.GenQft.swapped_loop_eq
+import Qvnt.Lemmas.GenQft.qft_qft_swapped_eq
+import Qvnt.Lemmas.GenQft.op_qft_eq
+import Qvnt.Lemmas.GenQft.op_qft_swapped_eq
